@@ -91,6 +91,34 @@ CHECKS["C13"] = dict(
     technique="TLA+ transcription of the simplifier model-checked by TLC (safety + termination); TLC-enumerated and random cases run on "
               "the code in a sandbox; results validated by TLC against the exact-rational oracle")
 
+CHECKS["C05"] = dict(
+    level="exploration",
+    text="WKB.tla is a byte-level OGC serializer (EncBytes / EncPat with byte orders mixed per nested element) and a complete reference "
+         "decoder (DecBytes) over concrete bytes, with coordinates as 8-byte bit patterns; TLC checks Dec(Enc(g)) = g and rejection of "
+         "every truncation over the bounded universe. TLC enumerates geometry trees x byte orders; the real encoder's bytes and hex "
+         "text must equal EncBytes/HexDigits, and the real decoder (wkb and hex, lower and upper case) must return the tree DecBytes "
+         "returns for every mixed-byte-order encoding; seeded random trees with random bit patterns extend the universe.",
+    design_ref="DESIGN.md section 5, C05",
+    note="Trusted: TLC, the harness's float64 <-> 8-byte conversion. Exhaustive for member counts 0-2, nesting <= 3, eight adversarial "
+         "bit patterns; random trees up to ~400 bytes.",
+    technique="TLA+ byte-level WKB serializer and reference decoder evaluated by TLC on TLC-enumerated and random cases recorded from "
+              "the real codec (trace validation)")
+CHECKS["C07"] = dict(
+    level="model_checking",
+    text="WKBDecoder.tla models the decoder as a push-down automaton over reads in which the untrusted input chooses each field's value "
+         "class (bad byte orders/types, counts up to 2^31-1, end of input inside any field) and `alloc` grows where the code sizes "
+         "memory; TLC checks AllocBound, totality (liveness) and agreement with the byte-level reference decoder on every behaviour. "
+         "Each terminal behaviour is rendered to bytes and given to the real wkb.Decode / hex.Decode inside a sandbox child with "
+         "allocation metering; WKBTrace.tla checks Total, AllocBound (<= 64 len + 1 MiB), Reencode and equality with DecBytes. "
+         "GeoJSONShape.tla transcribes doFromGeoJSON's shape checks; TLC enumerates coordinates trees one mutation away from "
+         "well-formed ones (and all small trees) under nine type strings, and the real geojson.Decode / FromGeoJSON (also with typed Go "
+         "values, textual mutations, 64 KiB nesting) are validated for Total / AllocBound / Reencode.",
+    design_ref="DESIGN.md section 5, C07",
+    note="Trusted: TLC, runtime.MemStats.TotalAlloc as the allocation meter, the sandbox (8 s deadline, 3 GiB address space). The "
+         "reference decoder is applied to inputs <= 400 bytes; 64 KiB inputs are checked for totality, allocation, re-encoding only.",
+    technique="TLA+ decoder automaton with environment-chosen field classes model-checked by TLC; its behaviours concretised to bytes and "
+              "replayed on the real decoders in a sandbox; recorded outcomes validated by TLC against a byte-level reference decoder")
+
 NOT_YET = "check not built yet in this round of work; will be claimed when its specification, replay and trace validation exist"
 NA = {
     "C09": "oracle is proj4js 2.3.12 and closed-form geodesy (real-valued transcendental functions, a JavaScript program that "
